@@ -151,19 +151,85 @@ func runUpdate(o *hx.Out, ups [][]sh, expectPartition bool) {
 	m := oxia.NewVerifShardMap()
 	var parts []string
 	for _, u := range ups {
+		// hypothesis of c18_client_update_preserves_partition: an id the client already knows keeps its range
+		cur := map[int64]sh{}
+		for _, s := range fromClient(m) {
+			cur[s.id] = s
+		}
+		for _, x := range u {
+			if s, ok := cur[x.id]; ok && s != x {
+				expectPartition = false
+			}
+		}
 		m.Update(toClient(u))
 		parts = append(parts, fmtShards(u))
-	}
-	got := fromClient(m)
-	res := fmtShards(got)
-	o.Case("update", "- "+strings.Join(parts, ";"), res, strings.Join(parts, ";"))
-	if expectPartition {
-		byMin := append([]sh(nil), got...)
-		sort.Slice(byMin, func(i, j int) bool { return byMin[i].min < byMin[j].min })
-		if !isPartition(byMin) {
-			o.Violation("update:client-map-not-a-partition", fmt.Sprintf("updates %.300s => %.300s", strings.Join(parts, ";"), res))
+		if expectPartition {
+			// spec: after an update that is a partition the client's map is exactly that partition,
+			// whatever (disjoint) map it held before
+			want := append([]sh(nil), u...)
+			sort.Slice(want, func(i, j int) bool { return want[i].id < want[j].id })
+			byMin := append([]sh(nil), want...)
+			sort.Slice(byMin, func(i, j int) bool { return byMin[i].min < byMin[j].min })
+			if isPartition(byMin) {
+				o.Count("update:partition-applied")
+				if got := fromClient(m); fmtShards(got) != fmtShards(want) {
+					o.Violation("client:map-not-partition-after-update", fmt.Sprintf("updates %.300s => client map %.300s", strings.Join(parts, ";"), fmtShards(got)))
+				}
+			} else {
+				expectPartition = false
+			}
 		}
 	}
+	res := fmtShards(fromClient(m))
+	o.Case("update", "- "+strings.Join(parts, ";"), res, strings.Join(parts, ";"))
+}
+
+// cutPartition builds a partition of [0,2^32) from arbitrary cut points (not only the ones GenerateShards
+// produces): single-hash shards and cuts that move by one between successive assignments are the cases
+// in which the client's overlap rule has to be exact.
+func cutPartition(base int64, cuts []uint32) []sh {
+	sort.Slice(cuts, func(i, j int) bool { return cuts[i] < cuts[j] })
+	var res []sh
+	lower := uint32(0)
+	for _, c := range cuts { // c = last hash of a shard
+		if c < lower || c == 0xFFFFFFFF {
+			continue
+		}
+		res = append(res, sh{base + int64(len(res)), lower, c})
+		lower = c + 1
+	}
+	return append(res, sh{base + int64(len(res)), lower, 0xFFFFFFFF})
+}
+
+func genCutUpdates(o *hx.Out, r *hx.Rng) {
+	var ups [][]sh
+	base := int64(r.Intn(50))
+	var cuts []uint32
+	for k := r.Intn(5); k >= 0; k-- {
+		cuts = append(cuts, hx.Pick(r, []uint32{0, 1, 2, 99, 100, 101, 0x7FFFFFFF, 0x80000000, 0xFFFFFFFD, 0xFFFFFFFE, uint32(r.U64())}))
+	}
+	for n := 2 + r.Intn(3); n > 0; n-- {
+		p := cutPartition(base, append([]uint32(nil), cuts...))
+		ups = append(ups, p)
+		if r.Chance(25) {
+			continue // re-announce the same assignment (same ids, same ranges)
+		}
+		base += int64(len(p))
+		// the next generation: every cut moved by -1/0/+1, sometimes a cut added or dropped
+		var next []uint32
+		for _, c := range cuts {
+			if r.Chance(15) {
+				continue
+			}
+			next = append(next, c+uint32(r.Intn(3))-1)
+		}
+		if r.Chance(40) {
+			next = append(next, uint32(r.U64()))
+		}
+		cuts = next
+	}
+	o.Count("update:arbitrary-cut-points")
+	runUpdate(o, ups, true)
 }
 
 func interestingN(r *hx.Rng) uint32 {
@@ -188,6 +254,9 @@ func main() {
 	defer o.Close()
 	r := hx.NewRng(f.Seed)
 
+	rig = newDispatcherRig()
+	defer rig.close()
+
 	replay := hx.CorpusLines(f.Corpus)
 	if f.Replay != "" {
 		replay = hx.ReadLines(f.Replay)
@@ -207,7 +276,9 @@ func main() {
 			for _, p := range strings.Split(t[3], ";") {
 				ups = append(ups, parseShards(p))
 			}
-			runUpdate(o, ups, false)
+			runUpdate(o, ups, true)
+		case "status":
+			runStatus(o, strings.Join(t[2:], " "), nil)
 		}
 	}
 	if f.Replay != "" {
@@ -218,13 +289,26 @@ func main() {
 	for _, n := range []uint32{0, 1, 2, 3, 4, 5, 7, 16, 255, 256, 257, 1000, 4096, 65535, 65536, 65537} {
 		runGen(o, 0, n)
 	}
+	for _, c := range fixedStatusCases {
+		runStatus(o, c, r.Fork())
+	}
+	if f.Tier == "thorough" {
+		for _, c := range fixedStatusCasesThorough {
+			runStatus(o, c, r.Fork())
+		}
+	}
+	rs := r.Fork()
+	for i := 0; i < 3*f.N; i++ {
+		runStatus(o, genStatusCase(rs, f.Tier), rs)
+		genCutUpdates(o, rs)
+	}
 	for i := 0; i < f.N; i++ {
 		base := int64(r.Intn(1000))
 		if r.Chance(10) {
 			base = int64(r.U64() >> 2)
 		}
 		n := interestingN(r)
-		if n > 5000 && r.Chance(80) { // keep the very long lines rare
+		if n > 5000 && (f.Tier != "thorough" || r.Chance(80)) { // very long lines: quick tier has the fixed ones only
 			n = uint32(1 + r.Intn(5000))
 		}
 		l := runGen(o, base, n)
